@@ -124,6 +124,9 @@ func TestC17(t *testing.T) {
 		cookie int
 		kind   string // valid, unlisted, already-shared
 		alt    uint16 // for already-shared: the shared group written into the HRR
+		// interloper: between this connection's first hello and its HelloRetryRequest another
+		// connection is built from the SAME spec object (targets of SharedSpecTargets)
+		interloper bool
 	}
 	var jobs []job
 	for ti, tg := range targets {
@@ -178,7 +181,7 @@ func TestC17(t *testing.T) {
 	r.Count("planned_cases", int64(len(jobs)))
 	var mu sync.Mutex
 	validByFamily := map[string]int{}
-	parallel(len(jobs), func(i int) {
+	runJob := func(i int) {
 		j := jobs[i]
 		rg := Sub("C17", i)
 		var cookie []byte
@@ -193,6 +196,11 @@ func TestC17(t *testing.T) {
 			sh, err := wire.ParseServerHello(data)
 			if err != nil || !sh.IsHRR {
 				return nil
+			}
+			if j.interloper {
+				// the client of this connection is waiting for the server's answer: nobody else
+				// touches the spec right now
+				buildHello(&tls.Config{ServerName: "other.example.test", OmitEmptyPsk: true}, j.t.ClientID(), j.t.Prepare())
 			}
 			changed := false
 			if cookie != nil {
@@ -278,10 +286,37 @@ func TestC17(t *testing.T) {
 			mu.Unlock()
 		}
 		r.Case(fmt.Sprintf("%s|%04x|%d|valid", family(j.t.Name), j.group, j.cookie), true)
+		if j.interloper && h.OK() {
+			r.Count("completed_after_hrr_with_interloper_on_shared_spec", 1)
+		}
 		if i%131 == 0 {
 			r.Sample(map[string]any{"target": j.t.Name, "group": fmt.Sprintf("%#04x", j.group), "cookie_len": j.cookie, "ch1_exts": u16s(ch1.ExtTypes()), "ch2_exts": u16s(ch2.ExtTypes())})
 		}
-	})
+	}
+	parallel(len(jobs), runJob)
+	// ONE spec object shared by consecutive connections, and by a connection that is built
+	// while another one waits for its HelloRetryRequest (sequentially: ApplyPreset writes
+	// into the spec): the second hello must still be the first one's retry
+	n0 := len(jobs)
+	for _, tg := range SharedSpecTargets() {
+		ch, err := tg.Probe("example.test")
+		if err != nil {
+			continue
+		}
+		o := OfferOf(ch, targetMinVersion(tg))
+		if !o.Has(tls.VersionTLS13) || len(o.Suites13) == 0 || ch.Has(wire.ExtPreSharedKey) {
+			continue
+		}
+		if g := hrrGroupFor(ch); g != 0 {
+			for k, cs := range []int{0, 32, 0, 300} {
+				jobs = append(jobs, job{t: tg, group: uint16(g), cookie: cs, kind: "valid", interloper: k >= 2})
+			}
+		}
+	}
+	for i := n0; i < len(jobs); i++ {
+		runJob(i)
+	}
+	r.Floor("completed_after_hrr_with_interloper_on_shared_spec", 8)
 	r.Count("families_with_valid_hrr", int64(len(validByFamily)))
 	r.Floor("completed_after_hrr", 100)
 	r.Floor("invalid_hrr_cases", 30)
